@@ -481,6 +481,15 @@ def c03(res, tier, seed):
         fs = r.random() < 0.3
         src = "rule t { condition: ext matches /%s/%s%s }" % (txt, "i" if fi else "", "s" if fs else "")
         filler = [x for x in SAFE + [0x63, 0x32, 0x42]]
+        if pi % 4 == 3:
+            # the operand as a string literal of the rule text: it can contain NUL bytes (an external variable cannot); one rule
+            # per operand, all evaluated by one scan
+            ops = [plant_buffer(r, ast, filler + [0, 0], 40) for _ in range(8)] + [b"", b"\0", b"a\0"]
+            esc = lambda o: "".join("\\x%02x" % x for x in o)
+            src = "\n".join('rule t%d { condition: "%s" matches /%s/%s%s }' % (k, esc(o), txt, "i" if fi else "", "s" if fs else "") for k, o in enumerate(ops))
+            groups.append({"src": src, "bufs": [b"x"], "pre": ["cdefine 0 s ext -"], "literal_ops": True})
+            metas.append((src, ast, {"nocase": fi, "dotall": fs}, ops))
+            continue
         ops = [bytes(x for x in plant_buffer(r, ast, filler, 40) if x != 0) for _ in range(8)] + [b""]
         groups.append({"src": src, "bufs": [b"x"] * len(ops), "pre": ["cdefine 0 s ext -"], "scan_pre": [["sdefine 0 s ext %s" % yv.hx(o)] for o in ops]})
         metas.append((src, ast, {"nocase": fi, "dotall": fs}, ops))
@@ -496,7 +505,20 @@ def c03(res, tier, seed):
             if g is None or not g["ok"]:
                 continue
             src, ast, fl, ops = metas[ci + gi]
+            literal = groups[ci + gi].get("literal_ops")
             for bi, o in enumerate(ops):
+                if literal:
+                    if g["rets"][0] != 0 or ("t%d" % bi) not in g["scans"][0]:
+                        records.append({"kind": "rescanerr", "ast": ast, "ret": g["rets"][0]})
+                        owners.append((src.split("\n")[bi], o.hex(), "scan returned %d" % g["rets"][0]))
+                        continue
+                    v = g["scans"][0]["t%d" % bi]["verdict"]
+                    records.append({"kind": "matches", "ast": ast, "buf": list(o), "obs": v, "nocase": fl["nocase"], "dotall": fl["dotall"]})
+                    if vm_budget[0] > 0 and ast_size(ast) <= 14 and len(o) <= 24:
+                        records[-1]["vm"] = True; vm_budget[0] -= 1
+                    owners.append((src.split("\n")[bi], o.hex(), v))
+                    res.count(1, (src, o))
+                    continue
                 if g["rets"][bi] != 0:
                     records.append({"kind": "rescanerr", "ast": ast, "ret": g["rets"][bi]})
                     owners.append((src, o.hex(), "scan returned %d" % g["rets"][bi]))
